@@ -145,13 +145,22 @@ func FindPathFromModel(path string, rwPaths ReadWritePathMap, exact bool) (bool,
 		// Find a short path
 		if exact && pathNoIndices == searchPathNoIndices {
 			return false, &modelElem, nil
-		} else if !exact && strings.HasPrefix(pathNoIndices, searchPathNoIndices) {
+		} else if !exact && isPathPrefix(pathNoIndices, searchPathNoIndices) {
 			return false, &modelElem, nil // returns the first thing it finds that matches the prefix
 		}
 	}
 
 	return false, nil,
 		errors.NewInvalid("unable to find RW model path %s ( without index %s). %d paths inspected", path, searchPathNoIndices, len(rwPaths))
+}
+
+// isPathPrefix reports whether prefix is path itself or one of its ancestors: the text must end at a path
+// element boundary, /limits/m is not a prefix of /limits/min
+func isPathPrefix(path string, prefix string) bool {
+	if !strings.HasPrefix(path, prefix) {
+		return false
+	}
+	return len(path) == len(prefix) || path[len(prefix)] == '/' || strings.HasSuffix(prefix, "/")
 }
 
 // CheckKeyValue checks that if this is a Key attribute, that the value is the same as its parent's key
